@@ -19,6 +19,10 @@ import (
 
 	"github.com/uber/kraken/core"
 	"github.com/uber/kraken/lib/hashring"
+	"github.com/uber/kraken/lib/store/metadata"
+	"github.com/uber/kraken/lib/torrent/storage/originstorage"
+	"github.com/uber/kraken/tracker/peerhandoutpolicy"
+	"github.com/uber/kraken/tracker/peerstore"
 	"github.com/uber/kraken/lib/hostlist"
 	"github.com/uber/kraken/lib/store"
 	"github.com/uber/kraken/lib/torrent/networkevent"
@@ -42,7 +46,10 @@ import (
 // makes GetPieceReader return flipped bytes.  The network events of all peers go to one
 // sequenced log.  The merged trace is one transcript case of machine "sw".
 //
-// A case is described by its cfg only (pl, blob, roles, limits, join delays, departure, seed);
+// Roles: s honest seeder on agent storage, o origin (originstorage over a CAStore, handed out by the
+// tracker's origin store with origin=true, not announcing), c seeder corrupting every piece it serves,
+// i seeder corrupting every other piece it serves, a agent, k agent that serves corrupted pieces.
+// A case is described by its cfg only (pl, blob, roles, limits, join delays, departures, timing);
 // the ops of a corpus / replay case are ignored: the swarm is re-run from the cfg.
 
 type c19Rec struct {
@@ -128,7 +135,9 @@ type c19Torrent struct {
 	storage.Torrent
 	log     *c19Log
 	self    string
-	corrupt bool
+	corrupt string // "": honest, "all": every served piece is corrupted, "alt": every other one
+	served  *int64
+	mu      *sync.Mutex
 }
 
 func c19Class(err error) string {
@@ -177,8 +186,15 @@ func (t *c19Torrent) WritePiece(src storage.PieceReader, pi int) error {
 
 func (t *c19Torrent) GetPieceReader(pi int) (storage.PieceReader, error) {
 	r, err := t.Torrent.GetPieceReader(pi)
-	if err != nil || !t.corrupt {
+	if err != nil || t.corrupt == "" {
 		return r, err
+	}
+	t.mu.Lock()
+	*t.served++
+	n := *t.served
+	t.mu.Unlock()
+	if t.corrupt == "alt" && n%2 == 0 {
+		return r, nil
 	}
 	defer r.Close()
 	data, err := io.ReadAll(r)
@@ -196,14 +212,16 @@ type c19Archive struct {
 	storage.TorrentArchive
 	log     *c19Log
 	self    string
-	corrupt bool
+	corrupt string
+	served  int64
+	mu      sync.Mutex
 }
 
 func (a *c19Archive) wrap(t storage.Torrent, err error) (storage.Torrent, error) {
 	if err != nil {
 		return nil, err
 	}
-	return &c19Torrent{Torrent: t, log: a.log, self: a.self, corrupt: a.corrupt}, nil
+	return &c19Torrent{Torrent: t, log: a.log, self: a.self, corrupt: a.corrupt, served: &a.served, mu: &a.mu}, nil
 }
 
 func (a *c19Archive) CreateTorrent(ns string, d core.Digest) (storage.Torrent, error) {
@@ -220,11 +238,23 @@ func (c *c19MetaInfoClient) Download(namespace string, d core.Digest) (*core.Met
 	return c.mi, nil
 }
 
+// c19OriginStore is the tracker's origin store: it hands out the swarm's origins.
+type c19OriginStore struct {
+	mu      sync.Mutex
+	origins []*core.PeerInfo
+}
+
+func (o *c19OriginStore) GetOrigins(d core.Digest) ([]*core.PeerInfo, error) {
+	o.mu.Lock()
+	defer o.mu.Unlock()
+	return append([]*core.PeerInfo(nil), o.origins...), nil
+}
+
 type c19Peer struct {
 	idx   int
 	role  string
-	dir   string
 	cads  *store.CADownloadStore
+	cas   *store.CAStore
 	inner *agentstorage.TorrentArchive
 	sched *scheduler
 	dl    string // result of Download
@@ -249,10 +279,14 @@ type c19Cfg struct {
 	maxconn  int
 	pipeline int
 	delays   []int // ms before each peer starts its download
-	depart   int   // index of the agent that leaves (-1: none)
+	depart   []int // peers that leave mid-transfer
 	departMs int
 	endgame  bool
+	blms     int // blacklist duration
+	prtms    int // piece request min timeout
 }
+
+func c19IsAgent(r string) bool { return r == "a" || r == "k" }
 
 func c19ParseCfg(cfg []string) (*c19Cfg, error) {
 	kv := map[string]string{}
@@ -261,7 +295,7 @@ func c19ParseCfg(cfg []string) (*c19Cfg, error) {
 			kv[c[:i]] = c[i+1:]
 		}
 	}
-	c := &c19Cfg{depart: -1}
+	c := &c19Cfg{}
 	var err error
 	if c.pl, err = strconv.Atoi(kv["pl"]); err != nil || c.pl <= 0 {
 		return nil, fmt.Errorf("pl")
@@ -273,15 +307,10 @@ func c19ParseCfg(cfg []string) (*c19Cfg, error) {
 	if len(c.roles) < 2 || len(c.roles) > 12 {
 		return nil, fmt.Errorf("roles")
 	}
-	honest := false
 	for _, r := range c.roles {
-		if r != "s" && r != "c" && r != "a" {
+		if !strings.Contains("s o c i a k", r) || len(r) != 1 {
 			return nil, fmt.Errorf("role")
 		}
-		honest = honest || r == "s"
-	}
-	if !honest {
-		return nil, fmt.Errorf("no honest seeder")
 	}
 	if c.maxconn, err = strconv.Atoi(kv["maxconn"]); err != nil || c.maxconn < 1 {
 		return nil, fmt.Errorf("maxconn")
@@ -296,20 +325,43 @@ func c19ParseCfg(cfg []string) (*c19Cfg, error) {
 	for len(c.delays) < len(c.roles) {
 		c.delays = append(c.delays, 0)
 	}
-	if v, err := strconv.Atoi(kv["depart"]); err == nil && v >= 0 && v < len(c.roles) && c.roles[v] == "a" {
-		c.depart = v
+	for _, d := range verifh.Unlist(kv["depart"]) {
+		if v, err := strconv.Atoi(d); err == nil && v >= 0 && v < len(c.roles) {
+			c.depart = append(c.depart, v)
+		}
+	}
+	// at least one honest seeder / origin stays
+	stays := false
+	for i, r := range c.roles {
+		gone := false
+		for _, d := range c.depart {
+			gone = gone || d == i
+		}
+		stays = stays || ((r == "s" || r == "o") && !gone)
+	}
+	if !stays {
+		return nil, fmt.Errorf("no honest seeder stays")
 	}
 	c.departMs, _ = strconv.Atoi(kv["departms"])
 	c.endgame = kv["endgame"] != "0"
+	if c.blms, _ = strconv.Atoi(kv["blms"]); c.blms <= 0 {
+		c.blms = 300
+	}
+	if c.prtms, _ = strconv.Atoi(kv["prtms"]); c.prtms <= 0 {
+		c.prtms = 500
+	}
 	return c, nil
 }
 
 // c19RunSwarm runs one swarm; returns the merged records and whether every remaining agent converged.
-func c19RunSwarm(c *c19Cfg, timeout time.Duration) (recs []c19Rec, converged bool, setupErr string) {
+func c19RunSwarm(c *c19Cfg, timeout time.Duration, timeoutTok string) (recs []c19Rec, converged bool, setupErr string) {
 	var cleanup testutil.Cleanup
 	defer cleanup.Run()
 
-	trackerAddr, stop := testutil.StartServer(trackerserver.Fixture().Handler())
+	ostore := &c19OriginStore{}
+	tracker := trackerserver.New(trackerserver.Config{AnnounceInterval: 250 * time.Millisecond}, tally.NoopScope,
+		peerhandoutpolicy.DefaultPriorityPolicyFixture(), peerstore.NewTestStore(), ostore, nil)
+	trackerAddr, stop := testutil.StartServer(tracker.Handler())
 	cleanup.Add(stop)
 
 	d, err := core.NewDigester().FromBytes(c.blob)
@@ -327,10 +379,10 @@ func c19RunSwarm(c *c19Cfg, timeout time.Duration) (recs []c19Rec, converged boo
 		PreemptionInterval: 500 * time.Millisecond,
 		ConnTTI:            10 * time.Second,
 		ConnTTL:            5 * time.Minute,
-		ConnState:          connstate.Config{MaxOpenConnectionsPerTorrent: c.maxconn, BlacklistDuration: 300 * time.Millisecond},
+		ConnState:          connstate.Config{MaxOpenConnectionsPerTorrent: c.maxconn, BlacklistDuration: time.Duration(c.blms) * time.Millisecond},
 		Conn:               conn.ConfigFixture(),
-		Dispatch: dispatch.Config{PieceRequestMinTimeout: 500 * time.Millisecond, PieceRequestTimeoutPerMb: time.Millisecond,
-			AgentPipelineLimit: c.pipeline, OriginPipelineLimit: c.pipeline, DisableEndgame: !c.endgame},
+		Dispatch: dispatch.Config{PieceRequestMinTimeout: time.Duration(c.prtms) * time.Millisecond, PieceRequestTimeoutPerMb: time.Millisecond,
+			AgentPipelineLimit: c.pipeline, OriginPipelineLimit: c.pipeline + 1, DisableEndgame: !c.endgame},
 		TorrentLog: log.Config{Disable: true},
 		Log:        log.Config{Disable: true},
 	}
@@ -342,26 +394,52 @@ func c19RunSwarm(c *c19Cfg, timeout time.Duration) (recs []c19Rec, converged boo
 			panic(err)
 		}
 		cleanup.Add(func() { os.RemoveAll(dir) })
-		cads, err := store.NewCADownloadStore(store.CADownloadStoreConfig{DownloadDir: dir + "/download", CacheDir: dir + "/cache"}, tally.NoopScope)
-		if err != nil {
-			panic(err)
-		}
-		cleanup.Add(cads.Close)
-		inner := agentstorage.NewTorrentArchive(tally.NoopScope, cads, &c19MetaInfoClient{mi})
+		p := &c19Peer{idx: i, role: role}
 		peerID := core.PeerIDFixture()
 		lg.ids[peerID.String()] = i
 		self := fmt.Sprintf("p%d", i)
-		ta := &c19Archive{TorrentArchive: inner, log: lg, self: self, corrupt: role == "c"}
+		corrupt := map[string]string{"c": "all", "k": "all", "i": "alt"}[role]
+		var ta storage.TorrentArchive
+		if role == "o" {
+			cas, err := store.NewCAStore(store.CAStoreConfig{UploadDir: dir + "/upload", CacheDir: dir + "/cache"}, tally.NoopScope)
+			if err != nil {
+				panic(err)
+			}
+			cleanup.Add(cas.Close)
+			if err := cas.CreateCacheFile(d.Hex(), bytes.NewReader(c.blob)); err != nil {
+				return nil, false, "origin: create cache file: " + err.Error()
+			}
+			if _, err := cas.SetCacheFileMetadata(d.Hex(), metadata.NewTorrentMeta(mi)); err != nil {
+				return nil, false, "origin: set torrent meta: " + err.Error()
+			}
+			p.cas = cas
+			ta = &c19Archive{TorrentArchive: originstorage.NewTorrentArchive(cas, nil), log: lg, self: self}
+		} else {
+			cads, err := store.NewCADownloadStore(store.CADownloadStoreConfig{DownloadDir: dir + "/download", CacheDir: dir + "/cache"}, tally.NoopScope)
+			if err != nil {
+				panic(err)
+			}
+			cleanup.Add(cads.Close)
+			p.cads = cads
+			p.inner = agentstorage.NewTorrentArchive(tally.NoopScope, cads, &c19MetaInfoClient{mi})
+			ta = &c19Archive{TorrentArchive: p.inner, log: lg, self: self, corrupt: corrupt}
+		}
 		// another process may grab the probed port before the scheduler listens on it: retry with a new one
 		var s *scheduler
+		var pctx core.PeerContext
 		for try := 0; ; try++ {
-			pctx := core.PeerContext{PeerID: peerID, Zone: "zone1", IP: "localhost", Port: c19FreePort()}
+			pctx = core.PeerContext{PeerID: peerID, Zone: "zone1", IP: "localhost", Port: c19FreePort(), Origin: role == "o"}
 			ac := announceclient.New(pctx, hashring.NoopPassiveRing(hostlist.Fixture(trackerAddr)), nil)
+			var aq announcequeue.Queue = announcequeue.New()
+			if role == "o" {
+				ac = announceclient.Disabled()
+				aq = announcequeue.Disabled()
+			}
 			s, err = newScheduler(config, ta, tally.NoopScope, pctx, ac, &c19Producer{lg})
 			if err != nil {
 				panic(err)
 			}
-			if err = s.start(announcequeue.New()); err == nil {
+			if err = s.start(aq); err == nil {
 				break
 			}
 			if try > 50 {
@@ -369,11 +447,17 @@ func c19RunSwarm(c *c19Cfg, timeout time.Duration) (recs []c19Rec, converged boo
 			}
 		}
 		cleanup.Add(s.Stop)
-		peers = append(peers, &c19Peer{idx: i, role: role, dir: dir, cads: cads, inner: inner, sched: s})
+		p.sched = s
+		if role == "o" {
+			ostore.mu.Lock()
+			ostore.origins = append(ostore.origins, core.PeerInfoFromContext(pctx, true))
+			ostore.mu.Unlock()
+		}
+		peers = append(peers, p)
 	}
 	// seeders hold the blob before they join (written through the unwrapped archive: not part of the trace)
 	for _, p := range peers {
-		if p.role == "a" {
+		if c19IsAgent(p.role) || p.role == "o" {
 			continue
 		}
 		t, err := p.inner.CreateTorrent(ns, d)
@@ -390,6 +474,9 @@ func c19RunSwarm(c *c19Cfg, timeout time.Duration) (recs []c19Rec, converged boo
 	var wg sync.WaitGroup
 	var mu sync.Mutex
 	for _, p := range peers {
+		if p.role == "o" {
+			continue // an origin opens the torrent when the first agent connects
+		}
 		p := p
 		wg.Add(1)
 		go func() {
@@ -411,16 +498,21 @@ func c19RunSwarm(c *c19Cfg, timeout time.Duration) (recs []c19Rec, converged boo
 				}
 			}
 			mu.Lock()
-			p.dl = res
+			if p.dl == "" {
+				p.dl = res
+			}
 			mu.Unlock()
 		}()
 	}
-	if c.depart >= 0 {
-		dp := peers[c.depart]
+	for _, di := range c.depart {
+		dp := peers[di]
 		go func() {
 			time.Sleep(time.Duration(c.delays[dp.idx]+c.departMs) * time.Millisecond)
 			mu.Lock()
 			dp.left = true
+			if dp.dl == "" {
+				dp.dl = "left"
+			}
 			mu.Unlock()
 			lg.add([]string{"leave", fmt.Sprintf("p%d", dp.idx)}, nil)
 			dp.sched.Stop()
@@ -434,7 +526,18 @@ func c19RunSwarm(c *c19Cfg, timeout time.Duration) (recs []c19Rec, converged boo
 	case <-time.After(timeout):
 		converged = false
 	}
-	// let the event log settle: every accepted write has produced its receive_piece event
+	// freeze the outcome of every Download, then stop all schedulers so that the trace is closed
+	mu.Lock()
+	for _, p := range peers {
+		if p.dl == "" {
+			p.dl = timeoutTok
+		}
+	}
+	mu.Unlock()
+	for _, p := range peers {
+		p.sched.Stop()
+	}
+	// every accepted write has produced its receive_piece event
 	deadline := time.Now().Add(10 * time.Second)
 	for time.Now().Before(deadline) {
 		lg.mu.Lock()
@@ -453,36 +556,45 @@ func c19RunSwarm(c *c19Cfg, timeout time.Duration) (recs []c19Rec, converged boo
 		}
 		time.Sleep(20 * time.Millisecond)
 	}
-	// final observations per peer
+	// final observations of every peer (the departed ones too)
 	for _, p := range peers {
 		mu.Lock()
-		dl, left := p.dl, p.left
+		dl := p.dl
 		mu.Unlock()
-		if dl == "" {
-			dl = "timeout"
-		}
-		if left {
-			continue
+		if p.role == "o" {
+			dl = "origin"
 		}
 		cm, bf, cache := "0", "-", "-"
-		if info, err := p.inner.Stat(ns, d); err == nil {
-			var sb strings.Builder
-			b := info.Bitfield()
-			for i := 0; i < mi.NumPieces(); i++ {
-				if b.Test(uint(i)) {
-					sb.WriteByte('1')
-				} else {
-					sb.WriteByte('0')
+		if p.role == "o" {
+			if r, err := p.cas.GetCacheFileReader(d.Hex()); err == nil {
+				if b, err := io.ReadAll(r); err == nil {
+					cache, cm = verifh.Hex(b), "1"
 				}
+				r.Close()
 			}
-			bf = sb.String()
-		}
-		if r, err := p.cads.Cache().GetFileReader(d.Hex()); err == nil {
-			if b, err := io.ReadAll(r); err == nil {
-				cache = verifh.Hex(b)
-				cm = "1" // complete == committed to the cache directory
+			bf = strings.Repeat("1", mi.NumPieces())
+		} else {
+			if info, err := p.inner.Stat(ns, d); err == nil {
+				var sb strings.Builder
+				b := info.Bitfield()
+				for i := 0; i < mi.NumPieces(); i++ {
+					if b.Test(uint(i)) {
+						sb.WriteByte('1')
+					} else {
+						sb.WriteByte('0')
+					}
+				}
+				bf = sb.String()
+			} else if c19IsAgent(p.role) {
+				bf = strings.Repeat("0", mi.NumPieces()) // the download was never opened
 			}
-			r.Close()
+			if r, err := p.cads.Cache().GetFileReader(d.Hex()); err == nil {
+				if b, err := io.ReadAll(r); err == nil {
+					cache = verifh.Hex(b)
+					cm = "1" // complete == committed to the cache directory
+				}
+				r.Close()
+			}
 		}
 		lg.add([]string{"final", fmt.Sprintf("p%d", p.idx)}, []string{"dl=" + dl, "complete=" + cm, "bf=" + bf, "cache=" + cache})
 	}
@@ -493,38 +605,50 @@ func c19RunSwarm(c *c19Cfg, timeout time.Duration) (recs []c19Rec, converged boo
 	return recs, converged, ""
 }
 
+func c19Emit(tr *verifh.T, cfg []string, attempt int, recs []c19Rec) {
+	tr.Cfg(append(append([]string{}, cfg...), fmt.Sprintf("attempt=%d", attempt))...)
+	for _, r := range recs {
+		tr.Rec("op", r.toks, r.obs)
+	}
+	tr.Op([]string{"done"}, "ok")
+	tr.End()
+	tr.Count("trace_records", len(recs))
+}
+
 func c19Exec(tr *verifh.T, c verifh.Case) {
-	cfg, err := c19ParseCfg(c.Cfg)
+	var raw []string
+	for _, t := range c.Cfg {
+		if !strings.HasPrefix(t, "attempt=") {
+			raw = append(raw, t)
+		}
+	}
+	cfg, err := c19ParseCfg(raw)
 	if err != nil {
 		return
 	}
 	timeout := time.Duration(verifh.Scale(90, 180)) * time.Second
 	t0 := time.Now()
 	defer func() { tr.Count("swarm_wall_ms_total", int(time.Since(t0).Milliseconds())) }()
-	recs, ok, setupErr := c19RunSwarm(cfg, timeout)
+	recs, ok, setupErr := c19RunSwarm(cfg, timeout, "timeout1")
 	if setupErr != "" {
 		// writing the blob's own pieces, in order, into a fresh torrent must succeed
-		tr.Cfg(c.Cfg...)
+		tr.Cfg(raw...)
 		tr.PropFail("seeder-setup-rejected", verifh.Str(setupErr))
 		tr.End()
 		return
 	}
+	// the first trace is always reported: its monitors run whether or not it converged
+	c19Emit(tr, raw, 1, recs)
+	tr.Count("swarms", 1)
 	if !ok {
-		// "did not converge within the timeout" is only reported after a retry of the whole swarm
+		// "did not converge within the timeout" as such is only reported after a retry of the whole swarm
 		tr.Count("swarm_retries", 1)
 		tr.Comment("swarm did not converge within the timeout; retrying once")
-		recs, ok, _ = c19RunSwarm(cfg, 2*timeout)
-	}
-	tr.Cfg(c.Cfg...)
-	for _, r := range recs {
-		tr.Rec("op", r.toks, r.obs)
-	}
-	tr.Op([]string{"done"}, "ok")
-	tr.End()
-	tr.Count("swarms", 1)
-	tr.Count("trace_records", len(recs))
-	if !ok {
-		tr.Count("swarms_not_converged", 1)
+		recs, ok, _ = c19RunSwarm(cfg, 2*timeout, "timeout")
+		c19Emit(tr, raw, 2, recs)
+		if !ok {
+			tr.Count("swarms_not_converged", 1)
+		}
 	}
 }
 
@@ -532,16 +656,25 @@ func c19GenCfg(r *verifh.Rand) []string {
 	pl := []int{1, 3, 8, 16, 64}[r.Intn(5)]
 	np := 1 + r.Intn(24)
 	blob := r.Bytes(pl*(np-1) + 1 + r.Intn(pl))
-	nseed := 1 + r.Intn(2)
-	nagent := 2 + r.Intn(4)
 	roles := []string{}
+	nseed := 1 + r.Intn(2)
 	for i := 0; i < nseed; i++ {
-		roles = append(roles, "s")
+		if r.Chance(1, 2) {
+			roles = append(roles, "o")
+		} else {
+			roles = append(roles, "s")
+		}
 	}
-	corrupt := r.Chance(2, 3)
-	if corrupt {
+	nhonest := len(roles)
+	switch r.Intn(6) {
+	case 0, 1:
 		roles = append(roles, "c")
+	case 2:
+		roles = append(roles, "i")
+	case 3:
+		roles = append(roles, "k")
 	}
+	nagent := 2 + r.Intn(4)
 	for i := 0; i < nagent; i++ {
 		roles = append(roles, "a")
 	}
@@ -553,15 +686,21 @@ func c19GenCfg(r *verifh.Rand) []string {
 	for range roles {
 		delays = append(delays, strconv.Itoa(r.Intn(4)*r.Intn(60)))
 	}
-	depart := -1
+	var depart []string
 	if r.Chance(1, 2) {
-		var agents []int
+		var agents, seeders []int
 		for i, ro := range roles {
 			if ro == "a" {
 				agents = append(agents, i)
 			}
+			if ro == "s" || ro == "o" {
+				seeders = append(seeders, i)
+			}
 		}
-		depart = agents[r.Intn(len(agents))]
+		depart = append(depart, strconv.Itoa(agents[r.Intn(len(agents))]))
+		if nhonest >= 2 && r.Chance(1, 2) {
+			depart = append(depart, strconv.Itoa(seeders[r.Intn(len(seeders))])) // one honest seeder stays
+		}
 	}
 	maxconn := []int{2, 3, 5, 10}[r.Intn(4)]
 	if maxconn < 3 && len(roles) > 5 {
@@ -569,7 +708,8 @@ func c19GenCfg(r *verifh.Rand) []string {
 	}
 	return []string{fmt.Sprintf("pl=%d", pl), "blob=" + verifh.Hex(blob), "roles=" + verifh.List(roles),
 		fmt.Sprintf("maxconn=%d", maxconn), fmt.Sprintf("pipeline=%d", 1+r.Intn(4)), "delays=" + verifh.List(delays),
-		fmt.Sprintf("depart=%d", depart), fmt.Sprintf("departms=%d", r.Intn(120)), "endgame=" + verifh.Bool(r.Chance(3, 4))}
+		"depart=" + verifh.List(depart), fmt.Sprintf("departms=%d", r.Intn(120)), "endgame=" + verifh.Bool(r.Chance(3, 4)),
+		fmt.Sprintf("blms=%d", []int{300, 300, 1500}[r.Intn(3)]), fmt.Sprintf("prtms=%d", []int{500, 500, 2000}[r.Intn(3)])}
 }
 
 func TestVerif_C19(t *testing.T) {
